@@ -322,6 +322,10 @@ func yieldHook(site string, n int) {
 	}
 }
 
+// c18OnlyKind >= 0 makes every goroutine of a configuration run that one kind of operation (set by the storm family only;
+// families run one after the other in a child process)
+var c18OnlyKind = -1
+
 func c18Config(k *core.Case, G, procs, opsPerSlot int) {
 	old := runtime.GOMAXPROCS(procs)
 	defer runtime.GOMAXPROCS(old)
@@ -351,6 +355,9 @@ func c18Config(k *core.Case, G, procs, opsPerSlot int) {
 			kind := r.Intn(nKinds)
 			if kind == kNewSA && r.Chance(4, 5) { // two 2048-bit-exponent modexps: keep it rare
 				kind = r.Intn(kNewSA)
+			}
+			if c18OnlyKind >= 0 {
+				kind = c18OnlyKind // a storm of one kind of operation on all goroutines
 			}
 			plan[g] = append(plan[g], kind)
 		}
@@ -489,10 +496,24 @@ func c18(c *core.Ctx) {
 		cf := cfgs[k.Index%len(cfgs)]
 		c18Config(k, cf.g, cf.p, maxI(total/cf.g, 8))
 	})
+	// storms of ONE kind of operation on 16 goroutines at once (every goroutine hits the same library code at the same
+	// time, with its own objects and arguments): interference that the mixed configurations dilute shows here
+	stormKinds := []int{kMapping, kDH, kEAP, kIKEKeys, kChildKeys, kDecode, kEncode, kProtect, kUnprotect, kRefused, kNewSA}
+	c.Family("single-kind-storms", len(stormKinds)*c.N(1, 20), func(k *core.Case) {
+		kind := stormKinds[k.Index%len(stormKinds)]
+		c18OnlyKind = kind
+		defer func() { c18OnlyKind = -1 }()
+		ops := 300
+		if kind == kNewSA {
+			ops = 12
+		}
+		c18Config(k, 16, 16, ops)
+		k.Count("single_kind_storms", 1)
+	})
 	// the very first uses of the library in a new process, overlapping on 32 goroutines (no sequential warm-up as in
 	// the configurations above)
 	freshFamily(c, "C18", "fresh-process-concurrent-first-use", c.N(6, 100))
-	req := []string{"fresh_process_cases_ok"}
+	req := []string{"fresh_process_cases_ok", "single_kind_storms"}
 	for i := 0; i < nKinds; i++ {
 		req = append(req, "ops_"+kindNames[i])
 		for j := i; j < nKinds; j++ {
